@@ -25,9 +25,9 @@ Theorem c15_findings_at_or_above_level_preserved : forall c l lns lv s al,
   In (lv, s, al) lns -> passes (with_level c l) lv al = true -> In (colourise c lv s) (emits (with_level c l) lns).
 Proof. exact findings_at_or_above_level_preserved. Qed.
 
-(* the verdict is computed from the report's items, never from what is printed: it has no option argument at all *)
+(* the verdict is computed from the report's findings (general section and items), never from what is printed: it has no option argument at all *)
 Theorem c15_status_is_function_of_items : forall (p : peer) (d0 : db),
-  rp_status (report_of p d0) = status_fold exit_GOOD (levels_of (rp_items (report_of p d0))).
+  rp_status (report_of p d0) = status_fold exit_GOOD (pr_general p ++ levels_of (rp_items (report_of p d0))).
 Proof. exact status_is_function_of_items. Qed.
 
 (* recorded finding: an immediate write (verbose "Starting audit" line) prints a blank line once the level filters it *)
